@@ -88,8 +88,10 @@ ZOO = {
     "EpistemicUS": Z("clf", lambda s, ml: EpistemicUncertaintySampling(random_state=s, missing_label=ml), clf_kw,
                      samplewise=(True, True), arbitrary_idx=True),
     # non-default configurations of the same strategies (the property quantifies over their flags as well)
+    # precompute=True interpolates the utilities on a lookup table whose size follows the largest frequency among the samples scored
+    # TOGETHER: a sample's utility depends on its companions, so it is not classified sample-wise (no restriction / parallel comparison)
     "EpistemicUS-precompute": Z("clf", lambda s, ml: EpistemicUncertaintySampling(precompute=True, random_state=s, missing_label=ml), clf_kw,
-                                samplewise=(True, True), arbitrary_idx=True),
+                                samplewise=(False, False), arbitrary_idx=True),
     "QBC-variation_ratios": Z("clf", lambda s, ml: QueryByCommittee(method="variation_ratios", random_state=s, missing_label=ml), ens_kw,
                               samplewise=(False, False), arbitrary_idx=True),
     "ProbabilisticAL-m_max2": Z("clf", lambda s, ml: ProbabilisticAL(m_max=2, prior=0.5, random_state=s, missing_label=ml), clf_kw,
@@ -180,4 +182,7 @@ def make_data(seed, n, n_labeled, kind, dup, n_features=2):
     lab = rs.choice(n, min(n_labeled, n), replace=False) if n_labeled else []
     for i in lab:
         y[i] = float(rs.randint(0, 2)) if kind == "clf" else float(np.round(rs.randn(), 2))
+    if kind == "clf" and len(lab) >= 2 and seed % 4 != 0:
+        # usually both classes are observed (a single observed class makes most utilities constant); one data set in four stays as drawn
+        y[lab[0]], y[lab[1]] = 0.0, 1.0
     return X, y
